@@ -8,6 +8,9 @@ Statements about `Date.marshalBinary` / `Date.unmarshalBinary` (model of `Marsha
 namespace U.Props.C11
 open U U.Date U.GoTime
 
+/-- generated fact: the version byte in the source is 1 -/
+theorem version_is_one : Gen.date_version = 1 := rfl
+
 /-- big-endian two's-complement decoding of four bytes -/
 def be32 (b1 b2 b3 b4 : Nat) : Int := wrap32 ((b1 * 16777216 + b2 * 65536 + b3 * 256 + b4 : Nat) : Int)
 
@@ -16,7 +19,8 @@ every stored value (no validity assumption). -/
 theorem marshal_layout (d : Date) :
     ∃ b1 b2 b3 b4, marshalBinary d = [1, b1, b2, b3, b4, d.date.2.1, d.date.2.2] ∧
       b1 < 256 ∧ b2 < 256 ∧ b3 < 256 ∧ b4 < 256 ∧ be32 b1 b2 b3 b4 = d.date.1 := by
-  refine ⟨_, _, _, _, rfl, ?_, ?_, ?_, ?_, ?_⟩
+  refine ⟨byteOf (wrap32 (d.year + 1) / 16777216), byteOf (wrap32 (d.year + 1) / 65536), byteOf (wrap32 (d.year + 1) / 256),
+    byteOf (wrap32 (d.year + 1)), by simp only [marshalBinary, version_is_one, Date.date], ?_, ?_, ?_, ?_, ?_⟩
   all_goals simp only [byteOf, Date.date, be32]
   · omega
   · omega
@@ -37,7 +41,7 @@ theorem roundtrip (y : Int) (m : Nat) (d : Int) (hv : ValidDate y m d)
   have hdl := daysIn_le y m
   rw [hnew]
   unfold marshalBinary unmarshalBinary
-  simp only [ne_eq, not_true_eq_false, if_false]
+  simp only [version_is_one, ne_eq, not_true_eq_false, if_false]
   have e0 : wrap32 (wrap32 (y - 1) + 1) = y := by rw [wrap32_succ_pred, wrap32_id (by omega)]
   rw [e0]
   have ey : wrap32 ((byteOf (y / 16777216) * 16777216 + byteOf (y / 65536) * 65536 + byteOf (y / 256) * 256 + byteOf y : Nat) : Int) = y := by
@@ -58,12 +62,12 @@ theorem strict_empty : unmarshalBinary [] = .err .invalidLength := rfl
 
 theorem strict_version (v : Nat) (rest : Bytes) (h : v ≠ 1) :
     unmarshalBinary (v :: rest) = .err .unsupportedVersion := by
-  unfold unmarshalBinary; simp [h]
+  unfold unmarshalBinary; simp [h, version_is_one]
 
 theorem strict_length (rest : Bytes) (h : rest.length ≠ 6) :
     unmarshalBinary (1 :: rest) = .err .invalidLength := by
   unfold unmarshalBinary
-  simp only [ne_eq, not_true_eq_false, if_false]
+  simp only [version_is_one, ne_eq, not_true_eq_false, if_false]
   match rest, h with
   | [], _ => rfl
   | [_], _ => rfl
@@ -87,7 +91,7 @@ theorem decodes_only_real_dates (bs : Bytes) (d : Date) (h : unmarshalBinary bs 
     split at h
     · simp at h
     · rename_i hv
-      simp only [ne_eq, Decidable.not_not] at hv
+      simp only [version_is_one, ne_eq, Decidable.not_not] at hv
       subst hv
       match rest, h with
       | [b1, b2, b3, b4, m, dd], h =>
